@@ -6,7 +6,7 @@
    operation, `last` the delivery log the spec expects for it.                              *)
 EXTENDS Dispatch
 CONSTANTS MaxResp, MaxRecv, MaxOps,
-          Mode      \* "base": small exhaustive alphabet; "rich": everything (simulation);
+          Mode      \* "base": small exhaustive alphabet ("base+": one more behaviour); "rich": everything (simulation);
                     \* "paths": three responders on up to three paths, one wildcard message matching several of
                     \*          them, callbacks freeing / disabling responders of OTHER paths (sole or not)
 Rich == Mode = "rich"
@@ -17,7 +17,7 @@ vars == <<st, op, last, nrecv, nops, spent>>
 A == <<47, 97>>          \* /a
 AB == <<47, 97, 98>>     \* /ab
 B == <<47, 98>>          \* /b
-Paths == IF Mode = "base" THEN {A, AB} ELSE {A, AB, B}
+Paths == IF Mode \in {"base", "base+"} THEN {A, AB} ELSE {A, AB, B}
 I(n) == [t |-> "i", hi |-> 0, lo |-> n]
 AnySrc == [h |-> 0, p |-> 0]
 H1 == [h |-> 1, p |-> 0]          \* host 1, any port
@@ -36,19 +36,20 @@ Act(o, i) == [op |-> o, i |-> i]
 Beh(rk, acts) == [rk |-> rk, acts |-> acts]
 Behs == IF PathsMode
         THEN {Quiet} \cup {Beh(0, <<Act(o, i)>>) : o \in (IF Mode = "paths" THEN {"free"} ELSE {"free", "disable"}), i \in 1..3}
-        ELSE {Quiet, Beh(1, <<>>), Beh(0, <<Act("free", 1)>>), Beh(1, <<Act("disable", 2)>>)}
+        ELSE {Quiet, Beh(1, <<>>), Beh(0, <<Act("free", 1)>>)} \cup (IF Mode = "base" THEN {} ELSE {Beh(1, <<Act("disable", 2)>>)})
              \cup (IF Rich THEN {Beh(2, <<>>), Beh(0, <<Act("enable", 1)>>), Beh(0, <<Act("free", 2)>>), Beh(0, <<Act("disable", 3)>>),
                                  Beh(0, <<Act("free", 3)>>), Beh(0, <<Act("disable", 1)>>),
                                  Beh(1, <<Act("enable", 2), Act("free", 1)>>), Beh(2, <<Act("free", 3)>>)} ELSE {})
 Creates == {[op |-> "create", kind |-> k, path |-> p, src |-> f.src, rport |-> f.rport, tmpl |-> f.tmpl, os |-> FALSE, beh |-> b] :
-               k \in {"exact", "matching"}, p \in Paths, f \in Profiles, b \in Behs}
+               k \in (IF Mode = "paths" THEN {"matching"} ELSE {"exact", "matching"}), p \in Paths, f \in Profiles, b \in Behs}
 \* message addresses: literal, wildcard forms (some match several registered paths: /* -> /a /b, /a* -> /a /ab,
 \* /?* -> all three), a prefix of /ab, a malformed pattern
 MAddrs == IF PathsMode THEN (IF Mode = "paths" THEN {<<47, 97, 42>>, <<47, 63, 42>>} ELSE {A, <<47, 42>>, <<47, 97, 42>>, <<47, 63, 42>>})
           ELSE {A, AB, <<47, 42>>, <<47, 97, 63>>} \cup
                (IF Rich THEN {<<47, 97, 42>>, <<47, 63, 42>>, <<47, 91, 97, 93>>, <<47, 123, 97, 44, 97, 98, 125>>, <<47, 91, 97>>} ELSE {})
 Msgs == {[tag |-> <<>>, a |-> a, args |-> ar] :
-            a \in MAddrs, ar \in (IF PathsMode THEN {<<>>} ELSE {<<>>, <<I(1)>>}) \cup (IF Rich THEN {<<I(0), I(9)>>} ELSE {})}
+            \* argument templates exist in the "rich" profiles only: elsewhere one argument list is enough
+            a \in MAddrs, ar \in (IF Rich THEN {<<>>, <<I(1)>>, <<I(0), I(9)>>} ELSE {<<I(1)>>})}
 
 Init == /\ st = [rs |-> <<>>, ord |-> <<>>] /\ op = [op |-> "init"] /\ last = <<>>
         /\ nrecv = 0 /\ nops = 0 /\ spent = {}
@@ -75,7 +76,15 @@ Recv == /\ nrecv < MaxRecv /\ nops < MaxOps /\ st.rs # <<>>
                                                   /\ ~d.st.rs[i].en}
         /\ nrecv' = nrecv + 1 /\ nops' = nops + 1
 \* in the "paths" modes histories are creations and deliveries only
-Next == Create \/ Enable \/ Disable \/ Free \/ OneShot \/ SetFunc \/ SetPerm \/ CmdPeriod \/ Recv
+\* a hostile datagram at socket level: empty or garbage payload, from a sender on another loopback address
+\* whose source port NUMBER equals the library's (p = 1) or not; it invokes nothing and changes nothing
+HostileSenders == {[h |-> 2, p |-> 1]} \cup (IF Rich THEN {[h |-> 3, p |-> 1], [h |-> 2, p |-> 5001], [h |-> 1, p |-> 5002]} ELSE {})
+RecvHostile == /\ ~PathsMode /\ nrecv < MaxRecv /\ nops < MaxOps /\ st.rs # <<>>
+               /\ \E s \in HostileSenders, via \in Vias, k \in {"empty", "garbage"} :
+                     op' = [op |-> "hostile", k |-> k, src |-> s, via |-> via]
+               /\ st' = st /\ last' = <<>> /\ spent' = spent
+               /\ nrecv' = nrecv + 1 /\ nops' = nops + 1
+Next == RecvHostile \/ Create \/ Enable \/ Disable \/ Free \/ OneShot \/ SetFunc \/ SetPerm \/ CmdPeriod \/ Recv
 Spec == Init /\ [][Next]_vars
 
 \* the property's named invariants; `last` is the log of the delivery just made (state before it: unprimed)
@@ -120,6 +129,10 @@ UntouchedFireOnce ==
                 => Cardinality({k \in 1..Len(last') : last'[k].r = i}) = 1]_vars
 \* some delivery really spans several paths with a callback acting on a responder of another path (vacuity guard
 \* for the "paths" configuration is the coverage of Recv plus this reachable-state witness, checked by hand)
+\* "... leaves it able to process the next datagram": the message after a hostile datagram is delivered in full
+NextDatagramProcessed ==
+    [][(op.op = "hostile" /\ op'.op = "recv") => [k \in 1..Len(last') |-> last'[k].r] = Fire(st, op'.m, op'.src, op'.via)]_vars
+HostileChangesNothing == [][op'.op = "hostile" => (st' = st /\ last' = <<>>)]_vars
 OrdConsistent == /\ \A k \in 1..Len(st.ord) : st.rs[st.ord[k]].en /\ ~st.rs[st.ord[k]].freed
                  /\ \A i \in 1..Len(st.rs) : st.rs[i].en => \E k \in 1..Len(st.ord) : st.ord[k] = i
                  /\ \A j, k \in 1..Len(st.ord) : j # k => st.ord[j] # st.ord[k]
